@@ -428,7 +428,38 @@ enum Item {
     Window(Ct, usize, bool),
     /// histories over the whole pool with the given first member
     Whole(Ct, usize),
+    /// laws and histories over the maximal-length menu (`long_pool`)
+    Long(Ct),
 }
+
+/// RDATA at the upper end of the 16-bit length range (the RdataSet stores a
+/// 16-bit length prefix per member): 65 535, 65 534 and 65 533 octets, a case
+/// variant and a one-octet-shorter prefix of the longest, plus one short
+/// member. For TXT the long members are valid <character-string> sequences;
+/// for name-bearing types they are a valid name followed by junk (malformed,
+/// hence compared octet-wise).
+pub fn long_pool(ct: Ct) -> Vec<Vec<u8>> {
+    let mk = |len: usize, fill: u8| -> Vec<u8> {
+        if ct.typ == t::TXT {
+            let mut out = Vec::with_capacity(len);
+            let mut rem = len;
+            while rem > 0 {
+                let take = rem.min(256);
+                out.push((take - 1) as u8);
+                out.extend(std::iter::repeat(fill).take(take - 1));
+                rem -= take;
+            }
+            out
+        } else {
+            let mut out = vec![1, fill, 0];
+            out.resize(len, fill);
+            out
+        }
+    };
+    vec![mk(65535, b'a'), mk(65535, b'A'), mk(65534, b'a'), mk(65533, b'a'), mk(65534, b'A'), mk(3, b'a')]
+}
+
+const LONG_CTS: [&str; 6] = ["TXT", "NS", "CH-A", "NULL", "IN-TYPE65280", "HS-A"];
 
 fn hang_case(n: &watch::Noted) -> (String, Value) {
     let (class, typ) = (n.nums[0], n.nums[1]);
@@ -474,6 +505,9 @@ pub fn run(ctx: Ctx) -> ! {
         for first in 0..p.len() {
             items.push(Item::Whole(*ct, first));
         }
+        if LONG_CTS.contains(&ct.label) {
+            items.push(Item::Long(*ct));
+        }
     }
     ctx.set_extra("pool_sizes", json!(pool_sizes.iter().map(|(k, v)| json!([k, v])).collect::<Vec<_>>()));
     let k = (ctx.seed as usize) % items.len().max(1);
@@ -492,6 +526,12 @@ pub fn run(ctx: Ctx) -> ! {
                 // windows wrap around so that the last members also meet the first
                 let menu: Vec<&[u8]> = (0..WINDOW.min(p.len())).map(|i| &p[(w + i) % p.len()][..]).collect();
                 histories(l, *ct, &menu, window_depth, &mut st);
+            }
+            Item::Long(ct) => {
+                let p = long_pool(*ct);
+                st.triples += check_laws(l, *ct, &p);
+                let menu: Vec<&[u8]> = p.iter().map(|r| &r[..]).collect();
+                histories(l, *ct, &menu, 3, &mut st);
             }
             Item::Whole(ct, first) => {
                 let p = pool(*ct, rich);
@@ -530,7 +570,7 @@ fn finish(ctx: Ctx, st: SetStats) -> ! {
     ctx.assume("TSIG RDATA that differ only in the ASCII case of the algorithm name: either answer accepted (meta-RR, statement silent); the equivalence laws are still required");
     ctx.finish(
         "exploration",
-        "28 class/type combinations. Per combination a pool of RDATA = product over the layout's fields of: name candidates {a., A., b., ., a.b., A.B. | malformed: truncated (2 cases), label type 0x40, pointer} (thorough adds a.B., ab., aB., another truncation, empty), trailing junk {none, j, J} after a last name, fixed fields {00.., ..01, 80.. | too short, too long}; name-free and opaque types a pool of 12-16 octet strings incl. case variants. Rdata::equals on every ordered pair vs the reference (octet-wise unless both operands well formed for a name-bearing pre-RFC 3597 type, then embedded names ASCII-case-insensitive); reflexive, symmetric; transitive on every ordered triple. RdataSetOwned: every insertion sequence of length <= 4 (thorough 5) over 6-member menus sliding (stride 3, wrapping) over the pool in two orderings (generation order; case variants adjacent) and every sequence of length <= 2 (thorough 3 for pools <= 150) over the whole pool, via From+insert (return values checked) and via from_iter, vs keep-first-of-each-class in insertion order",
+        "28 class/type combinations. Per combination a pool of RDATA = product over the layout's fields of: name candidates {a., A., b., ., a.b., A.B. | malformed: truncated (2 cases), label type 0x40, pointer} (thorough adds a.B., ab., aB., another truncation, empty), trailing junk {none, j, J} after a last name, fixed fields {00.., ..01, 80.. | too short, too long}; name-free and opaque types a pool of 12-16 octet strings incl. case variants. Rdata::equals on every ordered pair vs the reference (octet-wise unless both operands well formed for a name-bearing pre-RFC 3597 type, then embedded names ASCII-case-insensitive); reflexive, symmetric; transitive on every ordered triple. RdataSetOwned: every insertion sequence of length <= 4 (thorough 5) over 6-member menus sliding (stride 3, wrapping) over the pool in two orderings (generation order; case variants adjacent) and every sequence of length <= 2 (thorough 3 for pools <= 150) over the whole pool, via From+insert (return values checked) and via from_iter, vs keep-first-of-each-class in insertion order; plus, for 6 class/type combinations, laws and every insertion sequence of length <= 3 over a 6-member menu of maximal-length RDATA (65 535 / 65 534 / 65 533 octets, case variants)",
         true,
     )
 }
